@@ -190,10 +190,35 @@ def divergentBuckets (a b : StateDigest) : List Nat :=
     | none => false
   common ++ extra a ++ extra b
 
-/-- `AntiEntropyManager::get_keys_in_buckets`: `keys.iter().filter(bucket ∈ buckets).take(limit)` -/
-def getKeysInBuckets (H : Hasher) (vs : ValueStream) (depth limit : Nat) (π : List Nat) (s : NMap RV)
-    (buckets : List Nat) : List (Nat × RV) :=
-  ((iter π s).filter fun p => buckets.contains (bucketOf depth (keyDigest H vs p.1 p.2))).take limit
+/-- how `get_keys_in_buckets` arranges the selected entries before applying the limit -/
+abbrev Arrange := List (Nat × RV) → List (Nat × RV)
+
+/-- stable insertion sort of entries by key under a key order `le` (in the driver: byte-wise
+    `String::cmp` on the decoded keys — NOT the order of the key codes) -/
+def insertByKey (le : Nat → Nat → Bool) (e : Nat × RV) : List (Nat × RV) → List (Nat × RV)
+  | [] => [e]
+  | x :: xs => if le e.1 x.1 then e :: x :: xs else x :: insertByKey le e xs
+
+def sortByKey (le : Nat → Nat → Bool) : Arrange := fun l => l.foldr (insertByKey le) []
+
+/-- the two versions of `get_keys_in_buckets` -/
+inductive SimOrder where
+  | mapOrder   -- `.filter(..).take(limit)` in map iteration order (before fix dc1be9d)
+  | keyOrder   -- `.filter(..).collect(); sort_by(key); .take(limit)` (since fix dc1be9d)
+  deriving DecidableEq, Repr
+
+def arrangeOf (so : SimOrder) (le : Nat → Nat → Bool) : Arrange :=
+  match so with
+  | .mapOrder => fun l => l
+  | .keyOrder => sortByKey le
+
+def currentSimOrder : SimOrder := .keyOrder
+
+/-- `AntiEntropyManager::get_keys_in_buckets` (the simulator path):
+    `keys.iter().filter(bucket ∈ buckets)`, arranged by `arr`, `.take(limit)` -/
+def getKeysInBuckets (arr : Arrange) (H : Hasher) (vs : ValueStream) (depth limit : Nat) (π : List Nat)
+    (s : NMap RV) (buckets : List Nat) : List (Nat × RV) :=
+  (arr ((iter π s).filter fun p => buckets.contains (bucketOf depth (keyDigest H vs p.1 p.2)))).take limit
 
 /-- `ShardReplicaState::apply_remote_delta` on `replicated_keys` (the Lamport clock and the
     executor write-through of `SimulatedNode::apply_remote_deltas` are not part of the state
@@ -211,20 +236,20 @@ def currentSortBucket : Bool := true
 /-- the crosswise application of `run_anti_entropy_sync`: both delta sets are computed from the
     pre-states (`get_keys_in_buckets` on either side), then `node_b` applies `deltas_a` and
     `node_a` applies `deltas_b` -/
-def exchange (H : Hasher) (vs : ValueStream) (depth limit : Nat) (πa πb : List Nat) (a b : NMap RV)
-    (div : List Nat) : NMap RV × NMap RV :=
-  let deltasA := getKeysInBuckets H vs depth limit πa a div
-  let deltasB := getKeysInBuckets H vs depth limit πb b div
+def exchange (arr : Arrange) (H : Hasher) (vs : ValueStream) (depth limit : Nat) (πa πb : List Nat)
+    (a b : NMap RV) (div : List Nat) : NMap RV × NMap RV :=
+  let deltasA := getKeysInBuckets arr H vs depth limit πa a div
+  let deltasB := getKeysInBuckets arr H vs depth limit πb b div
   (applyDeltas a deltasB, applyDeltas b deltasA)
 
 /-- `MultiNodeSimulation::run_anti_entropy_sync(node_a, node_b)` on the two `replicated_keys` maps -/
-def syncRoundWith (H : Hasher) (sortBucket : Bool) (vs : ValueStream) (depth limit : Nat)
+def syncRoundWith (arr : Arrange) (H : Hasher) (sortBucket : Bool) (vs : ValueStream) (depth limit : Nat)
     (πa πb : List Nat) (a b : NMap RV) : NMap RV × NMap RV :=
   let da := fromState H sortBucket vs depth πa a
   let db := fromState H sortBucket vs depth πb b
   if differsFrom da db then
     let div := divergentBuckets da db
-    if !div.isEmpty then exchange H vs depth limit πa πb a b div
+    if !div.isEmpty then exchange arr H vs depth limit πa πb a b div
     else (a, b)
   else (a, b)
 
@@ -271,8 +296,9 @@ def pullWith (ord : RespOrder) (H : Hasher) (sortBucket : Bool) (vs : ValueStrea
 def digest (H : Hasher) (depth : Nat) (π : List Nat) (s : NMap RV) : StateDigest :=
   fromState H currentSortBucket currentStream depth π s
 
-def syncRound (H : Hasher) (depth limit : Nat) (πa πb : List Nat) (a b : NMap RV) : NMap RV × NMap RV :=
-  syncRoundWith H currentSortBucket currentStream depth limit πa πb a b
+def syncRound (le : Nat → Nat → Bool) (H : Hasher) (depth limit : Nat) (πa πb : List Nat) (a b : NMap RV) :
+    NMap RV × NMap RV :=
+  syncRoundWith (arrangeOf currentSimOrder le) H currentSortBucket currentStream depth limit πa πb a b
 
 def pull (H : Hasher) (depth limit : Nat) (full : Bool) (πr πp : List Nat) (r p : NMap RV) :
     Bool × List Nat × List (Nat × RV) × NMap RV :=
